@@ -108,6 +108,9 @@ def enumerate_states(tier):
                     for which in (1, 2):
                         states.append(dict(key="b_mod_%d_%d_%s%s_cfg%d" % (m1, m2, "v" if bv[0] else "r", "v" if bv[1] else "r", which),
                                            container="mod", s1=m1, s2=m2, byval=list(bv), mock=mock, feature=feature, cfg_on=which))
+                        # .. and with a DISABLED #[cfg] on it: that function does not exist, its bounds are not declared in this build
+                        states.append(dict(key="b_mod_%d_%d_%s%s_off%d" % (m1, m2, "v" if bv[0] else "r", "v" if bv[1] else "r", which),
+                                           container="mod", s1=m1, s2=m2, byval=list(bv), mock=mock, feature=feature, cfg_off=which))
     for mask, form, byval in itertools.product(range(8), ("inline", "where", "impl", "split"), (False, True)):
         states.append(dict(key="b_fn_%d_%s_%s_n2" % (mask, form, "val" if byval else "ref"), container="fn", s1=mask, form=form, byval=[byval],
                            mock="none", feature=False, asy=False, scheme=2))
@@ -139,6 +142,10 @@ def model(s):
         return dict(static_probe_rejected=True)
     need = s["s1"] | s.get("s2", 0) | s.get("s3", 0)
     byval = any(s["byval"])
+    if s.get("cfg_off"):
+        keep = 2 if s["cfg_off"] == 1 else 1
+        need = s["s%d" % keep]
+        byval = s["byval"][keep - 1]
     bits = []
     for mask in range(8):
         for fl in FLAVS:
@@ -165,8 +172,8 @@ def render_(s):
         L += ["    " + attr(s["mock"], s.get("asy") == "ms"), "    " + fn_src("f", s["s1"], s["form"], s["byval"][0], asy=bool(s.get("asy")))]
     else:
         L += ["    " + attr(s["mock"]), "    pub mod m {", "        use super::*;",
-              "        " + ("#[cfg(all())] " if s.get("cfg_on") == 1 else "") + fn_src("f1", s["s1"], "inline", s["byval"][0]),
-              "        " + ("#[cfg(all())] " if s.get("cfg_on") == 2 else "") + fn_src("f2", s["s2"], "where", s["byval"][1])]
+              "        " + ("#[cfg(all())] " if s.get("cfg_on") == 1 else "#[cfg(any())] " if s.get("cfg_off") == 1 else "") + fn_src("f1", s["s1"], "inline", s["byval"][0]),
+              "        " + ("#[cfg(all())] " if s.get("cfg_on") == 2 else "#[cfg(any())] " if s.get("cfg_off") == 2 else "") + fn_src("f2", s["s2"], "where", s["byval"][1])]
         if s["container"] == "mod3":
             L.append("        " + fn_src("f3", s["s3"], "impl", s["byval"][2]))
         L.append("    }")
@@ -239,7 +246,7 @@ def evaluate(states, report, tier):
                 tags = {"container:" + s["container"], "mock:" + s["mock"], "feature:" + ("on" if feature else "off"),
                         "byval" if any(s["byval"]) else "byref", "form:" + s.get("form", "mixed"),
                         {False: "sync", True: "async", "ms": "async-maybe-send", None: "sync"}[s.get("asy")],
-                        "names:" + ("same-last-segment" if s.get("scheme") == 2 else "default"), "cfg-on-fn:%s" % (s.get("cfg_on") or "none")}
+                        "names:" + ("same-last-segment" if s.get("scheme") == 2 else "default"), "cfg-on-fn:%s" % (s.get("cfg_on") or "none"), "cfg-off-fn:%s" % ("yes" if s.get("cfg_off") else "no")}
                 report.violation(s["key"], tags, sig, detail, state=s, source=engine.standalone_source(u, hdr),
                                  meta=dict(mode="run", feature=feature))
 
